@@ -1,5 +1,7 @@
 //! Conformance harness: drives the real code built from /repo's working tree (hooks on) from
 //! TLC-generated behaviours, and records real executions for trace validation.
+mod engine;
+mod gadgets;
 mod jsoncaps;
 mod policy;
 mod pool;
@@ -26,6 +28,9 @@ fn main() -> Result<()> {
         "policy-ctors" => policy::ctors(&args[2], &args[3]),
         "publish-replay" => publish::replay(&args[2], &args[3], &args[4]),
         "publish-child" => publish::child(&args[2]),
+        "gadget-replay" => gadgets::replay(&args[2], &args[3], &args[4]),
+        "gadget-record" => gadgets::record(&args[2], args[3].parse()?, seed(), &args[4]),
+        "gadget-selftest" => gadgets::selftest(),
         _ => Err(anyhow!("unknown subcommand {cmd}")),
     }
 }
